@@ -592,6 +592,8 @@ Proof.
     destruct (ph_subset h && ekind_is_enoent e); [|constructor; exact I].
     eapply okp_bind; [apply procfs_new_unmasked_ok|]. intros nh Hnh.
     destruct nh as [h'|e']; [|constructor; exact I]. cbn in Hnh.
+    destruct (RETRY_ONLY_UNMASKED && ph_subset h').
+    { eapply okp_bind; [apply close_ok; assumption|]. intros _ _. constructor; exact I. }
     eapply okp_bind; [apply IH; exact Hnh|]. intros r' Hr'.
     eapply okp_bind; [apply close_ok; assumption|]. intros _ _. constructor; exact Hr'. }
   intros r3 Hr3.
